@@ -40,8 +40,18 @@ def scrub(x):
 
 
 def family(obs, name, prefix=""):
-    """the definitions that belong to the item called `name` (the item and what is derived from it), sorted by name"""
-    return sorted([d for d in obs["defs"] if d["name"].startswith(prefix + name) or d["name"].startswith(name)], key=lambda d: d["name"])
+    """the definitions that belong to the item called `name` (the item and what is derived from it: <name><Variant>Inner ...), sorted by name"""
+    def mine(n):
+        for p in (prefix + name, name):
+            if n == p or (n.startswith(p) and n[len(p)].isupper()):
+                return True
+        return False
+    return sorted([d for d in obs["defs"] if mine(d["name"])], key=lambda d: d["name"])
+
+
+def neighbour_names(c):
+    """(name of the neighbour that sorts before, name of the one that sorts after) - MC_Compose!Namings"""
+    return {"far": (BEFORE, AFTER), "prefix": (SUBJECT[:-1], SUBJECT + "m"), "case": (SUBJECT.upper(), SUBJECT.lower())}[c.get("naming", "far")]
 
 
 def facet(defs, which):
@@ -74,13 +84,13 @@ def facet(defs, which):
 
 
 def program(c):
-    parts = []
-    if c["before"] != "none":
-        parts.append(MENU[c["before"]].format(N=BEFORE))
-    parts.append(MENU[c["item"]].format(N=SUBJECT))
-    if c["after"] != "none":
-        parts.append(MENU[c["after"]].format(N=AFTER))
-    return "".join(parts)
+    nb, na = neighbour_names(c)
+    before = MENU[c["before"]].format(N=nb) if c["before"] != "none" else ""
+    after = MENU[c["after"]].format(N=na) if c["after"] != "none" else ""
+    subject = MENU[c["item"]].format(N=SUBJECT)
+    if c.get("order", "as_named") == "crossed":          # the source text of the neighbour stands on the other side of the item
+        return after + subject + before
+    return before + subject + after
 
 
 def run(chk, which):
@@ -152,13 +162,17 @@ def run(chk, which):
         where = "+".join(x for x in ("after-a-neighbour" if c["before"] != "none" else "", "before-a-neighbour" if c["after"] != "none" else "") if x)
         if c.get("place", "same_file") == "other_crate":
             where += "-in-another-crate"
+        if c.get("naming", "far") != "far":
+            where += "/neighbour-name=" + c["naming"]
+        if c.get("order", "as_named") != "as_named":
+            where += "/source-order-crossed"
         chk.mismatch(f"{chk.pid}/{lang}/compose/{c['item']}/{where}/{which}-depend-on-neighbours",
                      f"{lang}: the {which} generated for {c['item']} differ between the run that generates it alone and the run with neighbours "
                      f"(before: {c['before']}, after: {c['after']}): alone {str(e['alone'])[:200]} / together {str(e['together'])[:200]}",
                      {"compose": c, "lang": lang, "src": src}, e["alone"], e["together"])
     chk.traces += len(events) - len(tres.bad)
     for lang, c, _ in meta:
-        chk.judged((lang, "compose", which, c["item"], c["before"], c["after"], c.get("place", "same_file")))
+        chk.judged((lang, "compose", which, c["item"], c["before"], c["after"], c.get("place", "same_file"), c.get("naming", "far"), c.get("order", "as_named")))
     chk.extra["compose_events"] = len(events)
 
 
